@@ -550,7 +550,9 @@ def check(ctx):
     # XOR key stream over the whole value) is a necessary condition here too
     from . import c08
     sub = type(ctx)(ctx.pid, ctx.an, ctx.tier)
-    c08.check(sub)
+    sub._shared_from = "C03"
+    if getattr(ctx, "_shared_from", None) != "C08":
+        c08.check(sub)
     ctx.obligations.extend(o for o in sub.obligations if o.rule.split(".", 1)[1].split(".")[0] in ("iv", "agree", "xor", "verbatim", "generated-is-written-is-returned"))     # ... and "the same key file" in a new session holds the same bytes
 
     # ---------------------------------------------------------------- C03.7 a named key file survives the replacement of its owner
